@@ -3,63 +3,14 @@
    (damaged records are deleted and counted).  Proofs only. *)
 From Coq Require Import ZArith ZifyN ZifyNat ZifyBool Lia List Permutation Sorted.
 From RecordUpdate Require Import RecordUpdate.
-From MQ Require Import Outbound RecordProofs.
+From MQ Require Import RecordProofs OutboundInv.
 Ltac Zify.zify_post_hook ::= Z.div_mod_to_equations.
 
 (* ------------------------------------------------------------------ *)
 (* Key arithmetic                                                      *)
 
-Lemma land_mask k : N.land k id_mask = k mod 16384.
-Proof. change id_mask with (N.ones 14). rewrite N.land_ones. reflexivity. Qed.
-
-Lemma lor_small_pow a n : a < 2 ^ n -> N.lor a (2 ^ n) = a + 2 ^ n.
-Proof.
-  intros H.
-  assert (Z : N.land a (2 ^ n) = 0).
-  { apply N.bits_inj. intros i. rewrite N.land_spec, N.bits_0, N.pow2_bits_eqb.
-    destruct (N.eqb_spec n i) as [->|]; [|apply andb_false_r].
-    rewrite andb_true_r.
-    destruct (N.eq_dec a 0) as [->|Ha]; [apply N.bits_0|].
-    apply N.bits_above_log2. apply N.log2_lt_pow2; lia. }
-  rewrite N.add_nocarry_lxor by exact Z. symmetry. apply N.lxor_lor. exact Z.
-Qed.
-
-Lemma lor_disj a b n : a < 2 ^ n -> N.land b (N.ones n) = 0 -> N.lor a b = a + b.
-Proof.
-  intros Ha Hb.
-  assert (Z : N.land a b = 0).
-  { apply N.bits_inj. intros i. rewrite N.land_spec, N.bits_0.
-    destruct (N.ltb_spec i n).
-    - assert (N.testbit b i = false).
-      { assert (E : N.testbit (N.land b (N.ones n)) i = false) by (rewrite Hb; apply N.bits_0).
-        rewrite N.land_spec, N.ones_spec_low in E by assumption. now rewrite andb_true_r in E. }
-      rewrite H0. apply andb_false_r.
-    - destruct (N.eq_dec a 0) as [->|Hn]; [now rewrite N.bits_0|].
-      rewrite N.bits_above_log2; [reflexivity|].
-      assert (N.log2 a < n) by (apply N.log2_lt_pow2; lia). lia. }
-  rewrite N.add_nocarry_lxor by exact Z. symmetry. apply N.lxor_lor. exact Z.
-Qed.
-
-Lemma key1_eq n : key1 n = n mod 16384 + 32768.
-Proof.
-  unfold key1. rewrite land_mask. apply (lor_disj _ _ 14).
-  - change (2 ^ 14) with 16384. apply N.mod_lt. discriminate.
-  - reflexivity.
-Qed.
-Lemma key2_eq n : key2 n = n mod 16384 + 49152.
-Proof.
-  unfold key2. rewrite land_mask. apply (lor_disj _ _ 14).
-  - change (2 ^ 14) with 16384. apply N.mod_lt. discriminate.
-  - reflexivity.
-Qed.
-
 Lemma space_sub k : k - N.land k id_mask = 16384 * (k / 16384).
 Proof. rewrite land_mask. lia. Qed.
-
-Lemma in_space_alo k : in_space k alo_space <-> 32768 <= k < 49152.
-Proof. unfold in_space, alo_space. rewrite space_sub. lia. Qed.
-Lemma in_space_eo k : in_space k eo_space <-> 49152 <= k < 65536.
-Proof. unfold in_space, eo_space. rewrite space_sub. lia. Qed.
 
 Lemma testbit16_small k : k < 65536 -> N.testbit k 16 = false.
 Proof.
@@ -387,4 +338,834 @@ Proof.
   - change (nseq a (S (S l))) with (a :: nseq (a + 1) (S l)).
     cbn [map]. change (last (?x :: map f (nseq (a + 1) (S l))) 0) with (last (map f (nseq (a + 1) (S l))) 0).
     rewrite IH. f_equal. lia.
+Qed.
+
+(* ------------------------------------------------------------------ *)
+(* clean_seq on a window of consecutive identifiers                    *)
+
+Lemma consecutive_succ k k' a :
+  k mod 16384 = a mod 16384 -> k' mod 16384 = (a + 1) mod 16384 -> consecutive k k' = true.
+Proof.
+  intros H H'. unfold consecutive. rewrite !land_mask. unfold id_mask.
+  destruct (N.eqb_spec (k' mod 16384) (k mod 16384 + 1)); [reflexivity|].
+  destruct (N.eqb_spec (k' mod 16384) 0); destruct (N.eqb_spec (k mod 16384) 16383);
+    cbn; try reflexivity; lia.
+Qed.
+
+Section Clean.
+  Variable key : N -> N.
+  Hypothesis Hkey : forall n, key n mod 16384 = n mod 16384.
+
+  Lemma clean_aux_window l : forall a run g,
+    clean_seq_aux run (key a) (map key (nseq (a + 1) l)) g
+    = (rev run ++ map key (nseq (a + 1) l), g).
+  Proof.
+    induction l as [|l IH]; intros a run g; cbn [nseq map clean_seq_aux].
+    - rewrite app_nil_r. reflexivity.
+    - rewrite (consecutive_succ (key a) (key (a + 1)) a) by (rewrite Hkey; reflexivity).
+      rewrite IH. cbn [rev]. rewrite <- app_assoc. reflexivity.
+  Qed.
+
+  Lemma clean_window l a : clean_seq (map key (nseq a l)) = (map key (nseq a l), 0).
+  Proof.
+    destruct l as [|l]; [reflexivity|].
+    cbn [nseq map clean_seq]. rewrite clean_aux_window. reflexivity.
+  Qed.
+End Clean.
+
+Lemma key1_mod n : key1 n mod 16384 = n mod 16384.
+Proof. rewrite key1_eq. lia. Qed.
+Lemma key2_mod n : key2 n mod 16384 = n mod 16384.
+Proof. rewrite key2_eq. lia. Qed.
+
+(* ------------------------------------------------------------------ *)
+(* Stores with strictly ascending keys                                 *)
+
+Lemma store_get_some_in m k : In k (map fst m) -> store_get m k <> None.
+Proof.
+  induction m as [|[k0 v0] r IH]; [intros []|].
+  cbn [map fst In store_get]. intros [->|Hin].
+  - rewrite N.eqb_refl. discriminate.
+  - destruct (k0 =? k); [discriminate|exact (IH Hin)].
+Qed.
+
+Lemma sorted_nodup m : sorted_keys m -> NoDup (map fst m).
+Proof.
+  induction m as [|[k v] r IH]; cbn [sorted_keys map fst]; [constructor|].
+  intros [Hgt Hs]. constructor; [|exact (IH Hs)].
+  intros Hin. apply (store_get_some_in r k Hin). apply Hgt. lia.
+Qed.
+
+Lemma store_get_in m k v : NoDup (map fst m) -> (store_get m k = Some v <-> In (k, v) m).
+Proof.
+  induction m as [|[k0 v0] r IH]; intros Hnd.
+  - cbn. split; [discriminate|tauto].
+  - cbn [store_get In]. inversion Hnd as [|? ? Hni Hnd']; subst.
+    destruct (N.eqb_spec k0 k) as [->|Hk].
+    + split.
+      * intros E. inversion E. left. reflexivity.
+      * intros [E|Hin]; [inversion E; reflexivity|].
+        exfalso. apply Hni. change k with (fst (k, v)). apply in_map. exact Hin.
+    + rewrite (IH Hnd'). split; [tauto|]. intros [E|Hin]; [inversion E; congruence|exact Hin].
+Qed.
+
+Definition sq_at (m : store) (k : N) : N :=
+  match store_get m k with
+  | Some v => match decode_value v with DecOk _ sq => sq | _ => 0 end
+  | None => 0
+  end.
+
+Lemma holds_sq_at m k p sq : holds m k p sq -> sq < M64 -> sq_at m k = sq.
+Proof. unfold holds, sq_at. intros -> H. rewrite decode_encode by exact H. reflexivity. Qed.
+
+(* membership in the selection of one class *)
+Lemma ent_sel_in c k raw k' sq :
+  In (k', sq) (ent_sel c (k, raw)) <->
+  k' = k /\ k <> 0 /\ N.testbit k 16 = false /\
+  exists h body, decode_value raw = DecOk (h :: body) sq /\ is_cls c (hclass k h) = true.
+Proof.
+  unfold ent_sel. destruct (N.eqb_spec k 0) as [->|Hk].
+  - cbn. split; [tauto|]. intros (_ & H & _). congruence.
+  - destruct (decode_value raw) as [[|h body] sq0| |].
+    + cbn. split; [tauto|]. intros (_ & _ & _ & h & b & E & _). discriminate.
+    + destruct (N.testbit k 16).
+      * cbn. split; [tauto|]. intros (_ & _ & E & _). discriminate.
+      * destruct (is_cls c (hclass k h)) eqn:Hc.
+        -- cbn. split.
+           ++ intros [E|[]]. inversion E; subst. repeat split; auto. exists h, body. auto.
+           ++ intros (-> & _ & _ & h' & b' & E & _). inversion E; subst. left. reflexivity.
+        -- cbn. split; [tauto|]. intros (_ & _ & _ & h' & b' & E & Hc'). inversion E; subst. congruence.
+    + cbn. split; [tauto|]. intros (_ & _ & _ & h & b & E & _). discriminate.
+    + cbn. split; [tauto|]. intros (_ & _ & _ & h & b & E & _). discriminate.
+Qed.
+
+Lemma sel_in c m k sq :
+  NoDup (map fst m) ->
+  (In (k, sq) (flat_map (ent_sel c) m) <->
+   exists raw, store_get m k = Some raw /\ In (k, sq) (ent_sel c (k, raw))).
+Proof.
+  intros Hnd. rewrite in_flat_map. split.
+  - intros ([k0 raw] & Hin & Hsel). assert (k = k0) by (apply ent_sel_in in Hsel; tauto). subst k0.
+    exists raw. split; [apply store_get_in; assumption|exact Hsel].
+  - intros (raw & Hg & Hsel). exists (k, raw). split; [apply store_get_in; assumption|exact Hsel].
+Qed.
+
+Lemma sel_nodup c m : NoDup (map fst m) -> NoDup (flat_map (ent_sel c) m).
+Proof.
+  induction m as [|[k raw] r IH]; intros Hnd; [constructor|].
+  inversion Hnd as [|? ? Hni Hnd']; subst. cbn [flat_map].
+  assert (Hshape : ent_sel c (k, raw) = [] \/ exists sq, ent_sel c (k, raw) = [(k, sq)]).
+  { unfold ent_sel. destruct (k =? 0); [auto|].
+    destruct (decode_value raw) as [[|h body] sq| |]; auto.
+    destruct (N.testbit k 16); [auto|]. destruct (is_cls c (hclass k h)); eauto. }
+  destruct Hshape as [->|(sq & ->)]; [exact (IH Hnd')|].
+  cbn [app]. constructor; [|exact (IH Hnd')].
+  intros Hin. apply in_flat_map in Hin. destruct Hin as ([k0 raw0] & Hin & Hsel).
+  assert (k = k0) by (apply ent_sel_in in Hsel; tauto). subst k0.
+  apply Hni. change k with (fst (k, raw0)). apply in_map. exact Hin.
+Qed.
+
+(* ------------------------------------------------------------------ *)
+(* What the invariant says about every record of the store             *)
+
+Definition known_keys (st : ost) : Prop :=
+  forall k v, store_get (o_store st) k = Some v ->
+    k = 0 \/ N.testbit k 16 = true \/ in_space k alo_space \/ in_space k eo_space.
+Definition markers_genuine (st : ost) : Prop :=
+  forall k v, store_get (o_store st) k = Some v -> N.testbit k 16 = true ->
+    exists p sq, v = encode_value p sq /\ sq <= o_rseq st.
+
+Lemma pub1_head retain topic msg n :
+  exists body, pub1_packet retain topic msg n = head_publish 1 retain false :: body.
+Proof. unfold pub1_packet, publish_packet, publish_head_buf. cbn [app]. eexists. reflexivity. Qed.
+Lemma pub2_head retain topic msg n :
+  exists body, pub2_packet retain topic msg n = head_publish 2 retain false :: body.
+Proof. unfold pub2_packet, publish_packet, publish_head_buf. cbn [app]. eexists. reflexivity. Qed.
+Lemma pubrel_head k : exists body, packet_pubrel k = 98 :: body.
+Proof. unfold packet_pubrel, ack_packet. eexists. reflexivity. Qed.
+
+Lemma key1_sp n : key1 n - N.land (key1 n) id_mask = alo_space.
+Proof. rewrite space_sub, key1_eq. unfold alo_space. lia. Qed.
+Lemma key2_sp n : key2 n - N.land (key2 n) id_mask = eo_space.
+Proof. rewrite space_sub, key2_eq. unfold eo_space. lia. Qed.
+
+Lemma hclass_pub1 n r : hclass (key1 n) (head_publish 1 r false) = Some Alo.
+Proof.
+  unfold hclass. rewrite key1_sp.
+  replace (head_publish 1 r false / 16 =? 3) with true by (destruct r; reflexivity).
+  reflexivity.
+Qed.
+Lemma hclass_pub2 n r : hclass (key2 n) (head_publish 2 r false) = Some Eo.
+Proof.
+  unfold hclass. rewrite key2_sp.
+  replace (head_publish 2 r false / 16 =? 3) with true by (destruct r; reflexivity).
+  reflexivity.
+Qed.
+Lemma hclass_rel k : hclass k 98 = Some Rel.
+Proof. reflexivity. Qed.
+
+Lemma ent_sel_genuine c k h body sq :
+  k <> 0 -> N.testbit k 16 = false -> sq < M64 ->
+  ent_sel c (k, encode_value (h :: body) sq) = if is_cls c (hclass k h) then [(k, sq)] else [].
+Proof.
+  intros Hk Hb Hs. unfold ent_sel. destruct (N.eqb_spec k 0); [congruence|].
+  rewrite decode_encode by exact Hs. rewrite Hb. reflexivity.
+Qed.
+
+Lemma key1_nz n : key1 n <> 0. Proof. rewrite key1_eq. lia. Qed.
+Lemma key2_nz n : key2 n <> 0. Proof. rewrite key2_eq. lia. Qed.
+Lemma key1_bit n : N.testbit (key1 n) 16 = false.
+Proof. apply testbit16_small. rewrite key1_eq. lia. Qed.
+Lemma key2_bit n : N.testbit (key2 n) 16 = false.
+Proof. apply testbit16_small. rewrite key2_eq. lia. Qed.
+
+Section Window.
+  Variable st : ost.
+  Hypothesis HI : OInv_fixed st.
+  Hypothesis Hsorted : sorted_keys (o_store st).
+  Hypothesis Hkeys : known_keys st.
+  Hypothesis Hmark : markers_genuine st.
+  Hypothesis Hseq : o_rseq st < M64.
+
+  Let m := o_store st.
+
+  Lemma Hnd : NoDup (map fst m).
+  Proof. apply sorted_nodup. exact Hsorted. Qed.
+
+  Inductive rec_kind (k : N) (v : list N) : Prop :=
+  | RK_zero : k = 0 -> rec_kind k v
+  | RK_marker p sq : N.testbit k 16 = true -> v = encode_value p sq -> sq <= o_rseq st -> rec_kind k v
+  | RK_pub1 n retain topic msg sq :
+      o_acked st <= n < o_acc1 st -> k = key1 n ->
+      v = encode_value (pub1_packet retain topic msg n) sq -> sq <= o_rseq st -> rec_kind k v
+  | RK_rel n sq :
+      o_compl st <= n < o_recvd st -> k = key2 n ->
+      v = encode_value (packet_pubrel (key2 n)) sq -> sq <= o_rseq st -> rec_kind k v
+  | RK_pub2 n retain topic msg sq :
+      o_recvd st <= n < o_acc2 st -> k = key2 n ->
+      v = encode_value (pub2_packet retain topic msg n) sq -> sq <= o_rseq st -> rec_kind k v.
+
+  Lemma store_kinds k v : store_get m k = Some v -> rec_kind k v.
+  Proof.
+    intros Hg. destruct (Hkeys k v Hg) as [H0|[Hb|[H1|H2]]].
+    - apply RK_zero. exact H0.
+    - destruct (Hmark k v Hg Hb) as (p & sq & -> & Hle). eapply RK_marker; eauto.
+    - destruct (si_only1 _ _ _ _ _ _ _ (oif_sto st HI) k v Hg H1) as (n & Hn & ->).
+      destruct (si_s1 _ _ _ _ _ _ _ (oif_sto st HI) n Hn) as (retain & topic & msg & sq & Hh & Hle).
+      unfold holds in Hh. fold m in Hh. rewrite Hh in Hg. inversion Hg; subst v.
+      eapply RK_pub1; eauto.
+    - destruct (si_only2 _ _ _ _ _ _ _ (oif_sto st HI) k v Hg H2) as (n & Hn & ->).
+      destruct (N.ltb_spec n (o_recvd st)).
+      + destruct (si_s2r _ _ _ _ _ _ _ (oif_sto st HI) n) as (sq & Hh & Hle); [lia|].
+        unfold holds in Hh. fold m in Hh. rewrite Hh in Hg. inversion Hg; subst v.
+        eapply RK_rel; eauto. lia.
+      + destruct (si_s2p _ _ _ _ _ _ _ (oif_sto st HI) n) as (retain & topic & msg & sq & Hh & Hle); [lia|].
+        unfold holds in Hh. fold m in Hh. rewrite Hh in Hg. inversion Hg; subst v.
+        eapply RK_pub2; eauto. lia.
+  Qed.
+
+  Lemma store_ents_ok : Forall ent_ok m.
+  Proof.
+    rewrite Forall_forall. intros [k v] Hin.
+    apply (store_get_in m k v Hnd) in Hin.
+    destruct (store_kinds k v Hin) as [H0|p sq Hb -> Hle|n r t ms sq Hn -> -> Hle|n sq Hn -> -> Hle|n r t ms sq Hn -> -> Hle].
+    - left. exact H0.
+    - right. exists p, sq. cbn [fst snd]. repeat split; auto. lia.
+    - right. eexists _, sq. cbn [fst snd]. split; [reflexivity|]. split; [lia|]. right.
+      destruct (pub1_head r t ms n) as (b & ->). discriminate.
+    - right. eexists _, sq. cbn [fst snd]. split; [reflexivity|]. split; [lia|]. right.
+      destruct (pubrel_head (key2 n)) as (b & ->). discriminate.
+    - right. eexists _, sq. cbn [fst snd]. split; [reflexivity|]. split; [lia|]. right.
+      destruct (pub2_head r t ms n) as (b & ->). discriminate.
+  Qed.
+
+  Definition lo (c : cls) : N :=
+    match c with Alo => o_acked st | Rel => o_compl st | Eo => o_recvd st end.
+  Definition hi (c : cls) : N :=
+    match c with Alo => o_acc1 st | Rel => o_recvd st | Eo => o_acc2 st end.
+  Definition keyf (c : cls) : N -> N := match c with Alo => key1 | _ => key2 end.
+
+  Lemma keyf_nz c n : keyf c n <> 0.
+  Proof. destruct c; [apply key1_nz|apply key2_nz|apply key2_nz]. Qed.
+  Lemma keyf_bit c n : N.testbit (keyf c n) 16 = false.
+  Proof. destruct c; [apply key1_bit|apply key2_bit|apply key2_bit]. Qed.
+  Lemma keyf_mod c n : keyf c n mod 16384 = n mod 16384.
+  Proof. destruct c; [apply key1_mod|apply key2_mod|apply key2_mod]. Qed.
+
+  (* the record of window position n of class c *)
+  Lemma window_record c n : lo c <= n < hi c ->
+    exists h body sq, holds m (keyf c n) (h :: body) sq /\ sq <= o_rseq st
+                      /\ hclass (keyf c n) h = Some c.
+  Proof.
+    intros Hn. destruct c; cbn [lo hi keyf] in *.
+    - destruct (si_s1 _ _ _ _ _ _ _ (oif_sto st HI) n Hn) as (r & t & ms & sq & Hh & Hle).
+      destruct (pub1_head r t ms n) as (b & E). rewrite E in Hh.
+      eexists _, b, sq. split; [exact Hh|]. split; [exact Hle|]. apply hclass_pub1.
+    - destruct (si_s2p _ _ _ _ _ _ _ (oif_sto st HI) n Hn) as (r & t & ms & sq & Hh & Hle).
+      destruct (pub2_head r t ms n) as (b & E). rewrite E in Hh.
+      eexists _, b, sq. split; [exact Hh|]. split; [exact Hle|]. apply hclass_pub2.
+    - destruct (si_s2r _ _ _ _ _ _ _ (oif_sto st HI) n Hn) as (sq & Hh & Hle).
+      destruct (pubrel_head (key2 n)) as (b & E). rewrite E in Hh.
+      eexists _, b, sq. split; [exact Hh|]. split; [exact Hle|]. apply hclass_rel.
+  Qed.
+
+  Lemma sel_window c k sq :
+    In (k, sq) (flat_map (ent_sel c) m) <->
+    exists n, lo c <= n < hi c /\ k = keyf c n /\ sq = sq_at m k.
+  Proof.
+    rewrite (sel_in c m k sq Hnd). split.
+    - intros (raw & Hg & Hsel). apply ent_sel_in in Hsel.
+      destruct Hsel as (_ & Hk0 & Hbit & h & body & Hdec & Hc).
+      assert (Hsq : sq = sq_at m k) by (unfold sq_at; rewrite Hg, Hdec; reflexivity).
+      destruct (store_kinds k raw Hg) as [H0|p sq' Hb -> Hle|n r t ms sq' Hn -> -> Hle|n sq' Hn -> -> Hle|n r t ms sq' Hn -> -> Hle].
+      + congruence.
+      + congruence.
+      + rewrite decode_encode in Hdec by lia.
+        assert (Hp : pub1_packet r t ms n = h :: body) by congruence.
+        destruct (pub1_head r t ms n) as (b & E). rewrite E in Hp. injection Hp as <- _.
+        rewrite hclass_pub1 in Hc. destruct c; try discriminate. exists n. auto.
+      + rewrite decode_encode in Hdec by lia.
+        assert (Hp : packet_pubrel (key2 n) = h :: body) by congruence.
+        destruct (pubrel_head (key2 n)) as (b & E). rewrite E in Hp. injection Hp as <- _.
+        rewrite hclass_rel in Hc. destruct c; try discriminate. exists n. auto.
+      + rewrite decode_encode in Hdec by lia.
+        assert (Hp : pub2_packet r t ms n = h :: body) by congruence.
+        destruct (pub2_head r t ms n) as (b & E). rewrite E in Hp. injection Hp as <- _.
+        rewrite hclass_pub2 in Hc. destruct c; try discriminate. exists n. auto.
+    - intros (n & Hn & -> & ->).
+      destruct (window_record c n Hn) as (h & body & sq & Hh & Hle & Hc).
+      exists (encode_value (h :: body) sq). split; [exact Hh|].
+      rewrite ent_sel_genuine by (auto using keyf_nz, keyf_bit; lia).
+      rewrite Hc. replace (is_cls c (Some c)) with true by (destruct c; reflexivity).
+      rewrite (holds_sq_at _ _ _ _ Hh) by lia. left. reflexivity.
+  Qed.
+
+  Definition wlen (c : cls) : nat := N.to_nat (hi c - lo c).
+  Definition wlist (c : cls) : list (N * N) :=
+    map (fun n => (keyf c n, sq_at m (keyf c n))) (nseq (lo c) (wlen c)).
+
+  Lemma wlist_sorted c : StronglySorted lt_snd (wlist c).
+  Proof.
+    apply nseq_sorted. intros n n' H1 H2 H3. unfold wlen in H3.
+    destruct (window_record c n) as (h & body & sq & Hh & Hle & _); [lia|].
+    destruct (window_record c n') as (h' & body' & sq' & Hh' & Hle' & _); [lia|].
+    rewrite (holds_sq_at _ _ _ _ Hh), (holds_sq_at _ _ _ _ Hh') by lia.
+    destruct c; cbn [lo hi keyf] in *.
+    - eapply (si_ord1 _ _ _ _ _ _ _ (oif_sto st HI) n n'); [lia|lia|lia| | |exact Hh|exact Hh']; lia.
+    - eapply (si_ord2p _ _ _ _ _ _ _ (oif_sto st HI) n n'); [lia|lia|lia| | |exact Hh|exact Hh']; lia.
+    - eapply (si_ord2r _ _ _ _ _ _ _ (oif_sto st HI) n n'); [lia|lia|lia| | |exact Hh|exact Hh']; lia.
+  Qed.
+
+  Lemma sel_perm c : Permutation (rev (flat_map (ent_sel c) m)) (wlist c).
+  Proof.
+    rewrite <- Permutation_rev. apply NoDup_Permutation.
+    - apply sel_nodup. exact Hnd.
+    - apply lt_snd_nodup. apply wlist_sorted.
+    - intros [k sq]. rewrite sel_window. unfold wlist. rewrite in_map_iff. split.
+      + intros (n & Hn & -> & ->). exists n. split; [reflexivity|].
+        apply nseq_in. unfold wlen. lia.
+      + intros (n & E & Hin). inversion E; subst. apply nseq_in in Hin. unfold wlen in Hin.
+        exists n. split; [lia|]. auto.
+  Qed.
+
+  Lemma keys_of_window c :
+    keys_of (rev (flat_map (ent_sel c) m)) = map (keyf c) (nseq (lo c) (wlen c)).
+  Proof.
+    unfold keys_of. rewrite (sort_by_seq_eq _ (wlist c) (wlist_sorted c) (sel_perm c)).
+    unfold wlist. rewrite map_map. reflexivity.
+  Qed.
+End Window.
+
+(* ------------------------------------------------------------------ *)
+(* op_adopt = List; scan; pure reconstruction                          *)
+
+Definition gap_of (eo rel0 : list N) : bool :=
+  match eo, rel0 with
+  | n0 :: _, _ :: _ => negb (consecutive (lastk rel0) n0)
+  | _, _ => false
+  end.
+
+Definition c_lvl1 (alo : list N) (c : client) : client :=
+  match alo with
+  | [] => c
+  | k0 :: _ =>
+    let acked := N.land k0 id_mask in
+    let l := N.land (lastk alo) id_mask in
+    let l := if l <? acked then l + 16384 else l in
+    c <| k_acked := acked |> <| k_acc1 := l + 1 |> <| k_sub1 := l + 1 |>
+  end.
+
+Definition c_lvl2 (eo rel : list N) (c : client) : client :=
+  match eo, rel with
+  | [], [] => c
+  | _, _ =>
+    let compl := match rel with [] => N.land (first_or eo 0) id_mask | r0 :: _ => N.land r0 id_mask end in
+    let recvd := match rel with
+                 | [] => compl
+                 | _ => let r := N.land (lastk rel) id_mask + 1 in if r <=? compl then r + 16384 else r
+                 end in
+    let acc := match eo with
+               | [] => recvd
+               | _ => let l := N.land (lastk eo) id_mask in
+                      (if l <? recvd then l + 16384 else l) + 1
+               end in
+    c <| k_compl := compl |> <| k_recvd := recvd |> <| k_acc2 := acc |> <| k_sub2 := acc |>
+  end.
+
+Definition adopt_cfg (cf : scfg) (max1z max2z : Z) : scfg :=
+  {| s_cfg := s_cfg cf; s_pause := s_pause cf; s_max1 := norm_max max1z;
+     s_max2 := norm_max max2z; s_rcap := s_rcap cf;
+     s_wmin := s_wmin cf; s_wmax := s_wmax cf |}.
+
+Definition mk_client (cf' : scfg) (amax : N) (alo eo rel : list N) : client :=
+  c_lvl2 eo rel (c_lvl1 alo (new_client cf' amax))
+    <| k_q1 := map (fun _ => 0) alo |> <| k_q2 := map (fun _ => 0) (eo ++ rel) |>.
+
+Definition adopt_build2 (cf : scfg) (max1z max2z : Z) (alo eo rel : list N) (warn amax : N)
+  : option client * retv :=
+  let cf' := adopt_cfg cf max1z max2z in
+  if (s_max1 cf' <? len alo) || (s_max2 cf' <? len eo + len rel) then (None, RetAdopt warn E_other)
+  else (Some (mk_client cf' amax alo eo rel), RetAdopt warn E_nil).
+
+Definition adopt_build (cf : scfg) (max1z max2z : Z) (alo eo rel0 : list N) (warn0 amax : N)
+  : option client * retv :=
+  let gap := gap_of eo rel0 in
+  adopt_build2 cf max1z max2z alo eo (if gap then [] else rel0) (warn0 + (if gap then 1 else 0)) amax.
+
+Definition adopt_finish (cf : scfg) (max1z max2z : Z) (r : adopt_acc + err) : option client * retv :=
+  match r with
+  | inr e => (None, RetAdopt 0 e)
+  | inl acc =>
+    let '(alo, g1) := clean_seq (keys_of (a_alo acc)) in
+    let '(eo, g2) := clean_seq (keys_of (a_eo acc)) in
+    let '(rel, g3) := clean_seq (keys_of (a_rel acc)) in
+    adopt_build cf max1z max2z alo eo rel (a_warn acc + g1 + g2 + g3) (a_max acc)
+  end.
+
+Definition acc0 : adopt_acc := mkAcc [] [] [] 0 0.
+
+Lemma op_adopt_map cf max1z max2z w m x w' :
+  mapw w m -> NoDup (map fst m) ->
+  op_adopt cf max1z max2z w = Some (x, w') ->
+  x = adopt_finish cf max1z max2z (fst (scan_pure m acc0 m)) /\ mapw w' (snd (scan_pure m acc0 m)).
+Proof.
+  intros Hw Hnd E. unfold op_adopt in E. unfold bind in E at 1.
+  destruct (ask_store QList w) as [[ans w1]|] eqn:A; [|discriminate].
+  destruct (ask_store_mapw _ _ _ _ _ Hw A) as [-> Hw1].
+  unfold bind in E at 1.
+  destruct (adopt_scan (map fst m) (mkAcc [] [] [] 0 0) w1) as [[r w2]|] eqn:S; [|discriminate].
+  destruct (adopt_scan_pure m acc0 m w1 r w2 Hw1) as [-> Hw2];
+    [intros k v Hin; apply store_get_in; assumption|exact Hnd|exact S|].
+  destruct (fst (scan_pure m acc0 m)) as [acc|e].
+  - unfold adopt_finish.
+    destruct (clean_seq (keys_of (a_alo acc))) as [alo g1].
+    destruct (clean_seq (keys_of (a_eo acc))) as [eo g2].
+    destruct (clean_seq (keys_of (a_rel acc))) as [rel g3].
+    cbv beta iota zeta in E.
+    match type of E with
+    | (if ?b then ret ?X else ret ?Y) _ = _ =>
+      assert (E' : Some ((if b then X else Y), w2) = Some (x, w'))
+        by (rewrite <- E; destruct b; reflexivity)
+    end.
+    inversion E'; subst. split; [reflexivity|exact Hw2].
+  - unfold ret in E. inversion E; subst. split; [reflexivity|exact Hw2].
+Qed.
+
+(* ------------------------------------------------------------------ *)
+(* Counter reconstruction on windows                                   *)
+
+Lemma len_map_nseq (f : N -> N) a l : len (map f (nseq a l)) = N.of_nat l.
+Proof. unfold len. rewrite map_length, nseq_length. reflexivity. Qed.
+
+Lemma lvl1_set_eq c a a' b b' :
+  a = a' -> b = b' ->
+  c <| k_acked := a |> <| k_acc1 := b |> <| k_sub1 := b |>
+  = c <| k_acked := a' |> <| k_acc1 := b' |> <| k_sub1 := b' |>.
+Proof. intros; subst; reflexivity. Qed.
+
+Lemma c_lvl1_window a l c :
+  N.of_nat (S l) <= 16384 ->
+  c_lvl1 (map key1 (nseq a (S l))) c
+  = c <| k_acked := a mod 16384 |> <| k_acc1 := a mod 16384 + N.of_nat (S l) |>
+      <| k_sub1 := a mod 16384 + N.of_nat (S l) |>.
+Proof.
+  intros HL. pose proof (nseq_last l a key1) as E.
+  unfold c_lvl1, lastk. cbn [nseq map] in E |- *. rewrite E.
+  cbv zeta. rewrite !land_mask, !key1_mod.
+  apply lvl1_set_eq; [reflexivity|].
+  destruct (N.ltb_spec ((a + N.of_nat l) mod 16384) (a mod 16384)); lia.
+Qed.
+
+Lemma lvl2_set_eq c a a' b b' d d' :
+  a = a' -> b = b' -> d = d' ->
+  c <| k_compl := a |> <| k_recvd := b |> <| k_acc2 := d |> <| k_sub2 := d |>
+  = c <| k_compl := a' |> <| k_recvd := b' |> <| k_acc2 := d' |> <| k_sub2 := d' |>.
+Proof. intros; subst; reflexivity. Qed.
+
+Lemma c_lvl2_window cm lr le c :
+  (0 < lr + le)%nat -> N.of_nat lr + N.of_nat le <= 16384 ->
+  c_lvl2 (map key2 (nseq (cm + N.of_nat lr) le)) (map key2 (nseq cm lr)) c
+  = c <| k_compl := cm mod 16384 |> <| k_recvd := cm mod 16384 + N.of_nat lr |>
+      <| k_acc2 := cm mod 16384 + N.of_nat lr + N.of_nat le |>
+      <| k_sub2 := cm mod 16384 + N.of_nat lr + N.of_nat le |>.
+Proof.
+  intros Hpos Hsum.
+  destruct lr as [|j]; destruct le as [|l]; [lia| | |].
+  - pose proof (nseq_last l (cm + N.of_nat 0) key2) as E.
+    unfold c_lvl2, lastk, first_or. cbn [nseq map] in E |- *. rewrite E.
+    cbv zeta. rewrite !land_mask, !key2_mod.
+    apply lvl2_set_eq; [f_equal; lia|lia|].
+    destruct (N.ltb_spec ((cm + N.of_nat 0 + N.of_nat l) mod 16384) ((cm + N.of_nat 0) mod 16384)); lia.
+  - pose proof (nseq_last j cm key2) as E.
+    unfold c_lvl2, lastk, first_or. cbn [nseq map] in E |- *. rewrite E.
+    cbv zeta. rewrite !land_mask, !key2_mod.
+    assert (R : (if (cm + N.of_nat j) mod 16384 + 1 <=? cm mod 16384
+                 then (cm + N.of_nat j) mod 16384 + 1 + 16384
+                 else (cm + N.of_nat j) mod 16384 + 1) = cm mod 16384 + N.of_nat (S j)).
+    { destruct (N.leb_spec ((cm + N.of_nat j) mod 16384 + 1) (cm mod 16384)); lia. }
+    apply lvl2_set_eq; [reflexivity|exact R|]. rewrite R. lia.
+  - pose proof (nseq_last j cm key2) as E.
+    pose proof (nseq_last l (cm + N.of_nat (S j)) key2) as E'.
+    unfold c_lvl2, lastk, first_or. cbn [nseq map] in E, E' |- *. rewrite E, E'.
+    cbv zeta. rewrite !land_mask, !key2_mod.
+    assert (R : (if (cm + N.of_nat j) mod 16384 + 1 <=? cm mod 16384
+                 then (cm + N.of_nat j) mod 16384 + 1 + 16384
+                 else (cm + N.of_nat j) mod 16384 + 1) = cm mod 16384 + N.of_nat (S j)).
+    { destruct (N.leb_spec ((cm + N.of_nat j) mod 16384 + 1) (cm mod 16384)); lia. }
+    apply lvl2_set_eq; [reflexivity|exact R|]. rewrite R.
+    destruct (N.ltb_spec ((cm + N.of_nat (S j) + N.of_nat l) mod 16384) (cm mod 16384 + N.of_nat (S j))); lia.
+Qed.
+
+Lemma gap_window cm lr le :
+  gap_of (map key2 (nseq (cm + N.of_nat lr) le)) (map key2 (nseq cm lr)) = false.
+Proof.
+  destruct le as [|l]; [reflexivity|]. destruct lr as [|j]; [reflexivity|].
+  pose proof (nseq_last j cm key2) as E.
+  unfold gap_of, lastk. cbn [nseq map] in E |- *. rewrite E.
+  rewrite (consecutive_succ _ _ (cm + N.of_nat j)); [reflexivity|apply key2_mod|].
+  rewrite key2_mod. f_equal. lia.
+Qed.
+
+Lemma mk_client_spec cf' amax a l1 cm lr le :
+  N.of_nat l1 <= 16384 -> N.of_nat lr + N.of_nat le <= 16384 ->
+  let c' := mk_client cf' amax (map key1 (nseq a l1))
+                      (map key2 (nseq (cm + N.of_nat lr) le)) (map key2 (nseq cm lr)) in
+  k_cfg c' = cf' /\ k_rseq c' = amax /\ k_closed c' = false /\ k_seqclosed c' = false
+  /\ k_sub1 c' = k_acc1 c' /\ k_sub2 c' = k_acc2 c'
+  /\ len (k_q1 c') = N.of_nat l1 /\ len (k_q2 c') = N.of_nat lr + N.of_nat le
+  /\ (l1 = O -> k_acked c' = 0 /\ k_acc1 c' = 0)
+  /\ (l1 <> O -> k_acked c' = a mod 16384 /\ k_acc1 c' = a mod 16384 + N.of_nat l1)
+  /\ ((lr + le)%nat = O -> k_compl c' = 0 /\ k_recvd c' = 0 /\ k_acc2 c' = 0)
+  /\ ((lr + le)%nat <> O ->
+      k_compl c' = cm mod 16384 /\ k_recvd c' = cm mod 16384 + N.of_nat lr
+      /\ k_acc2 c' = cm mod 16384 + N.of_nat lr + N.of_nat le).
+Proof.
+  intros H1 H2 c'. subst c'. unfold mk_client.
+  assert (Hlen1 : forall (f g : N -> N) x n1, len (map f (map g (nseq x n1))) = N.of_nat n1).
+  { intros. unfold len. rewrite !map_length, nseq_length. reflexivity. }
+  assert (Hlen2 : forall (f g h : N -> N) y z n2 n3,
+            len (map f (map g (nseq y n2) ++ map h (nseq z n3))) = N.of_nat n3 + N.of_nat n2).
+  { intros. unfold len. rewrite !map_length, app_length, !map_length, !nseq_length. lia. }
+  destruct l1 as [|l1].
+  - change (c_lvl1 (map key1 (nseq a 0)) (new_client cf' amax)) with (new_client cf' amax).
+    destruct (Nat.eq_dec (lr + le) 0) as [Hz|Hz].
+    + assert (lr = O) by lia. assert (le = O) by lia. subst lr le.
+      cbn -[len nseq N.of_nat]. repeat split; try reflexivity; try congruence.
+    + rewrite c_lvl2_window by lia.
+      cbn -[len nseq N.of_nat]. repeat split; try reflexivity; try congruence; try lia; first [apply Hlen1|apply Hlen2].
+  - rewrite c_lvl1_window by lia.
+    destruct (Nat.eq_dec (lr + le) 0) as [Hz|Hz].
+    + assert (lr = O) by lia. assert (le = O) by lia. subst lr le.
+      cbn -[len nseq N.of_nat]. repeat split; try reflexivity; try congruence; try lia; first [apply Hlen1|apply Hlen2].
+    + rewrite c_lvl2_window by lia.
+      cbn -[len nseq N.of_nat]. repeat split; try reflexivity; try congruence; try lia; first [apply Hlen1|apply Hlen2].
+Qed.
+
+(* ------------------------------------------------------------------ *)
+(* The invariant survives re-basing the counters by multiples of 16384 *)
+
+Lemma key1_shift n q : key1 (n + 16384 * q) = key1 n.
+Proof. rewrite !key1_eq. f_equal. rewrite N.mul_comm. apply N.mod_add. discriminate. Qed.
+Lemma key2_shift n q : key2 (n + 16384 * q) = key2 n.
+Proof. rewrite !key2_eq. f_equal. rewrite N.mul_comm. apply N.mod_add. discriminate. Qed.
+Lemma pub1_shift r t ms n q : pub1_packet r t ms (n + 16384 * q) = pub1_packet r t ms n.
+Proof. unfold pub1_packet. rewrite key1_shift. reflexivity. Qed.
+Lemma pub2_shift r t ms n q : pub2_packet r t ms (n + 16384 * q) = pub2_packet r t ms n.
+Proof. unfold pub2_packet. rewrite key2_shift. reflexivity. Qed.
+
+Lemma SInv_rebase ak ac1 cp rc ac2 rs m ak' ac1' cp' rc' ac2' rs' :
+  SInv ak ac1 cp rc ac2 rs m ->
+  cp <= rc -> rc <= ac2 ->
+  ((ak = ac1 /\ ak' = ac1')
+   \/ exists q, ak = ak' + 16384 * q /\ ac1 = ac1' + 16384 * q) ->
+  ((cp = ac2 /\ cp' = rc' /\ rc' = ac2')
+   \/ exists q, cp = cp' + 16384 * q /\ rc = rc' + 16384 * q /\ ac2 = ac2' + 16384 * q) ->
+  (forall k p sq, holds m k p sq -> k <> 0 -> sq <= rs -> sq <= rs') ->
+  SInv ak' ac1' cp' rc' ac2' rs' m.
+Proof.
+  intros [Hs1 Hs2r Hs2p Ho1 Ho2 Hd1 Hd2r Hd2p] C2a C2b R1 R2 Hr.
+  constructor.
+  - intros n Hn. destruct R1 as [[? ?]|(q & E1 & E2)]; [lia|].
+    destruct (Hs1 (n + 16384 * q)) as (r & t & ms & sq & Hh & Hle); [lia|].
+    rewrite key1_shift, pub1_shift in Hh. exists r, t, ms, sq. split; [exact Hh|].
+    eapply Hr; [exact Hh|apply key1_nz|exact Hle].
+  - intros n Hn. destruct R2 as [(? & ? & ?)|(q & E1 & E2 & E3)]; [lia|].
+    destruct (Hs2r (n + 16384 * q)) as (sq & Hh & Hle); [lia|].
+    rewrite key2_shift in Hh. exists sq. split; [exact Hh|].
+    eapply Hr; [exact Hh|apply key2_nz|exact Hle].
+  - intros n Hn. destruct R2 as [(? & ? & ?)|(q & E1 & E2 & E3)]; [lia|].
+    destruct (Hs2p (n + 16384 * q)) as (r & t & ms & sq & Hh & Hle); [lia|].
+    rewrite key2_shift, pub2_shift in Hh. exists r, t, ms, sq. split; [exact Hh|].
+    eapply Hr; [exact Hh|apply key2_nz|exact Hle].
+  - intros k v Hg Hsp. destruct (Ho1 k v Hg Hsp) as (n & Hn & ->).
+    destruct R1 as [[? ?]|(q & E1 & E2)]; [lia|].
+    exists (n - 16384 * q). split; [lia|].
+    rewrite <- (key1_shift (n - 16384 * q) q). f_equal. lia.
+  - intros k v Hg Hsp. destruct (Ho2 k v Hg Hsp) as (n & Hn & ->).
+    destruct R2 as [(? & ? & ?)|(q & E1 & E2 & E3)]; [lia|].
+    exists (n - 16384 * q). split; [lia|].
+    rewrite <- (key2_shift (n - 16384 * q) q). f_equal. lia.
+  - intros n n' p p' sq sq' H1 H2 H3 Hb Hb' Hh Hh'.
+    destruct R1 as [[? ?]|(q & E1 & E2)]; [lia|].
+    rewrite <- (key1_shift n q) in Hh. rewrite <- (key1_shift n' q) in Hh'.
+    eapply (Hd1 (n + 16384 * q) (n' + 16384 * q)); [lia|lia|lia|exact Hb|exact Hb'|exact Hh|exact Hh'].
+  - intros n n' p p' sq sq' H1 H2 H3 Hb Hb' Hh Hh'.
+    destruct R2 as [(? & ? & ?)|(q & E1 & E2 & E3)]; [lia|].
+    rewrite <- (key2_shift n q) in Hh. rewrite <- (key2_shift n' q) in Hh'.
+    eapply (Hd2r (n + 16384 * q) (n' + 16384 * q)); [lia|lia|lia|exact Hb|exact Hb'|exact Hh|exact Hh'].
+  - intros n n' p p' sq sq' H1 H2 H3 Hb Hb' Hh Hh'.
+    destruct R2 as [(? & ? & ?)|(q & E1 & E2 & E3)]; [lia|].
+    rewrite <- (key2_shift n q) in Hh. rewrite <- (key2_shift n' q) in Hh'.
+    eapply (Hd2p (n + 16384 * q) (n' + 16384 * q)); [lia|lia|lia|exact Hb|exact Hb'|exact Hh|exact Hh'].
+Qed.
+
+(* ------------------------------------------------------------------ *)
+(* C02: restart resumes exactly the unacknowledged set                 *)
+
+Lemma norm_max_le z : norm_max z <= 16384.
+Proof.
+  unfold norm_max. destruct (Z.ltb_spec z 0); cbn [orb]; [lia|].
+  destruct (Z.ltb_spec 16383 z); lia.
+Qed.
+
+Section AdoptExact.
+  Variable st : ost.
+  Hypothesis HI : OInv_fixed st.
+  Hypothesis Hsorted : sorted_keys (o_store st).
+  Hypothesis Hkeys : known_keys st.
+  Hypothesis Hmark : markers_genuine st.
+  Hypothesis Hseq : o_rseq st < M64.
+  Variables (cf : scfg) (m1 m2 : Z) (tp : tapes).
+  Hypothesis Hnofail : Forall (fun b => b = false) (tp_stf tp).
+  Hypothesis Hlim1 : o_acc1 st - o_acked st <= norm_max m1.
+  Hypothesis Hlim2 : o_acc2 st - o_compl st <= norm_max m2.
+
+  Local Notation m := (o_store st).
+  Let l1 := wlen st Alo.
+  Let lr := wlen st Rel.
+  Let le := wlen st Eo.
+
+  Lemma adopt_result oc r w :
+    op_adopt cf m1 m2 (world_of m tp) = Some ((oc, r), w) ->
+    exists amax,
+      oc = Some (mk_client (adopt_cfg cf m1 m2) amax (map key1 (nseq (o_acked st) l1))
+                           (map key2 (nseq (o_compl st + N.of_nat lr) le))
+                           (map key2 (nseq (o_compl st) lr)))
+      /\ r = RetAdopt 0 E_nil /\ w_store w = Some m
+      /\ seq_bound m amax /\ amax <= o_rseq st.
+  Proof.
+    intros E.
+    pose proof (ci_c1 st (oif_cnt st HI)) as C1. pose proof (ci_c2 st (oif_cnt st HI)) as C2.
+    assert (Hseq' : o_rseq st < M64) by exact Hseq.
+    assert (Hndm : NoDup (map fst m)) by (apply sorted_nodup; exact Hsorted).
+    destruct (op_adopt_map cf m1 m2 (world_of m tp) m (oc, r) w) as [Ex Hw'];
+      [split; [reflexivity|exact Hnofail]|exact Hndm|exact E|].
+    destruct (scan_pure_ok m acc0 m (store_ents_ok st HI Hsorted Hkeys Hmark Hseq'))
+      as (a' & Esp & Hwarn & Hget & _ & Hb1 & Hb2).
+    rewrite Esp in Ex, Hw'. cbn [fst snd] in Ex, Hw'.
+    assert (HA : clean_seq (keys_of (a_alo a')) = (map key1 (nseq (o_acked st) l1), 0)).
+    { change (a_alo a') with (acc_get Alo a'). rewrite Hget. cbn [acc_get acc0 a_alo].
+      rewrite app_nil_r.
+      rewrite (keys_of_window st HI Hsorted Hkeys Hmark Hseq' Alo).
+      apply clean_window. apply key1_mod. }
+    assert (HE : clean_seq (keys_of (a_eo a')) = (map key2 (nseq (o_compl st + N.of_nat lr) le), 0)).
+    { change (a_eo a') with (acc_get Eo a'). rewrite Hget. cbn [acc_get acc0 a_eo].
+      rewrite app_nil_r.
+      rewrite (keys_of_window st HI Hsorted Hkeys Hmark Hseq' Eo).
+      cbn [lo keyf]. replace (o_compl st + N.of_nat lr) with (o_recvd st)
+        by (unfold lr, wlen; cbn [lo hi]; lia).
+      apply clean_window. apply key2_mod. }
+    assert (HR : clean_seq (keys_of (a_rel a')) = (map key2 (nseq (o_compl st) lr), 0)).
+    { change (a_rel a') with (acc_get Rel a'). rewrite Hget. cbn [acc_get acc0 a_rel].
+      rewrite app_nil_r.
+      rewrite (keys_of_window st HI Hsorted Hkeys Hmark Hseq' Rel).
+      apply clean_window. apply key2_mod. }
+    unfold adopt_finish in Ex. rewrite HA, HE, HR in Ex.
+    unfold adopt_build in Ex. rewrite gap_window in Ex.
+    unfold adopt_build2 in Ex. cbv zeta in Ex.
+    rewrite !len_map_nseq in Ex.
+    replace (s_max1 (adopt_cfg cf m1 m2)) with (norm_max m1) in Ex by reflexivity.
+    replace (s_max2 (adopt_cfg cf m1 m2)) with (norm_max m2) in Ex by reflexivity.
+    assert (L1 : (norm_max m1 <? N.of_nat l1) = false)
+      by (apply N.ltb_ge; unfold l1, wlen; cbn [lo hi]; lia).
+    assert (L2 : (norm_max m2 <? N.of_nat le + N.of_nat lr) = false)
+      by (apply N.ltb_ge; unfold le, lr, wlen; cbn [lo hi]; lia).
+    rewrite L1, L2 in Ex. cbn [orb] in Ex. rewrite Hwarn in Ex.
+    change (a_warn acc0 + 0 + 0 + 0 + 0) with 0 in Ex.
+    inversion Ex; subst oc r.
+    exists (a_max a'). split; [reflexivity|]. split; [reflexivity|].
+    split; [exact (proj1 Hw')|]. split; [exact Hb1|].
+    apply Hb2; [cbn; lia|].
+    intros k raw p sq Hin Hk Hdec.
+    apply (store_get_in m k raw Hndm) in Hin.
+    destruct (store_kinds st HI Hkeys Hmark Hseq' k raw Hin)
+      as [H0|p' sq' Hb -> Hle|n r' t ms sq' Hn -> -> Hle|n sq' Hn -> -> Hle|n r' t ms sq' Hn -> -> Hle];
+      [congruence| | | |];
+      rewrite decode_encode in Hdec by lia; inversion Hdec; subst; exact Hle.
+  Qed.
+End AdoptExact.
+
+Theorem adopt_exact : forall st cf m1 m2 tp oc r w,
+  OInv' st -> known_keys st -> markers_genuine st ->
+  Forall (fun b => b = false) (tp_stf tp) ->
+  o_acc1 st - o_acked st <= norm_max m1 -> o_acc2 st - o_compl st <= norm_max m2 ->
+  op_adopt cf m1 m2 (world_of (o_store st) tp) = Some ((oc, r), w) ->
+  exists c',
+    oc = Some c' /\ r = RetAdopt 0 E_nil
+    /\ w_store w = Some (o_store st)
+    /\ k_cfg c' = adopt_cfg cf m1 m2
+    /\ (o_acked st < o_acc1 st ->
+        k_acked c' = o_acked st mod 16384 /\ k_acc1 c' - k_acked c' = o_acc1 st - o_acked st)
+    /\ (o_acked st = o_acc1 st -> k_acked c' = 0 /\ k_acc1 c' = 0)
+    /\ k_sub1 c' = k_acc1 c'
+    /\ (o_compl st < o_acc2 st ->
+        k_compl c' = o_compl st mod 16384
+        /\ k_recvd c' - k_compl c' = o_recvd st - o_compl st
+        /\ k_acc2 c' - k_compl c' = o_acc2 st - o_compl st)
+    /\ (o_compl st = o_acc2 st -> k_compl c' = 0 /\ k_recvd c' = 0 /\ k_acc2 c' = 0)
+    /\ k_sub2 c' = k_acc2 c'
+    /\ len (k_q1 c') = o_acc1 st - o_acked st /\ len (k_q2 c') = o_acc2 st - o_compl st
+    /\ (forall sq k v p, k <> 0 -> store_get (o_store st) k = Some v ->
+                         decode_value v = DecOk p sq -> sq <= k_rseq c')
+    /\ k_rseq c' <= o_rseq st
+    /\ OInv' (ost_of (mkSys c' (o_store st))).
+Proof.
+  intros st cf m1 m2 tp oc r w [HF [Hsorted Hseq]] Hkeys Hmark Hnofail Hlim1 Hlim2 E.
+  pose proof (ci_c1 st (oif_cnt st HF)) as C1. pose proof (ci_c2 st (oif_cnt st HF)) as C2.
+  pose proof (norm_max_le m1) as N1. pose proof (norm_max_le m2) as N2.
+  destruct (adopt_result st HF Hsorted Hkeys Hmark Hseq cf m1 m2 tp Hnofail Hlim1 Hlim2 oc r w E)
+    as (amax & -> & -> & Hst & Hb & Hle).
+  assert (Hndm : NoDup (map fst (o_store st))) by (apply sorted_nodup; exact Hsorted).
+  set (l1 := wlen st Alo) in *. set (lr := wlen st Rel) in *. set (le := wlen st Eo) in *.
+  assert (El1 : N.of_nat l1 = o_acc1 st - o_acked st) by (unfold l1, wlen; cbn [lo hi]; lia).
+  assert (Elr : N.of_nat lr = o_recvd st - o_compl st) by (unfold lr, wlen; cbn [lo hi]; lia).
+  assert (Ele : N.of_nat le = o_acc2 st - o_recvd st) by (unfold le, wlen; cbn [lo hi]; lia).
+  pose proof (mk_client_spec (adopt_cfg cf m1 m2) amax (o_acked st) l1 (o_compl st) lr le
+                ltac:(lia) ltac:(lia)) as S.
+  cbv zeta in S.
+  match type of S with k_cfg ?c = _ /\ _ => set (c' := c) in * end.
+  destruct S as (Scfg & Srseq & Sclosed & Sterm & Ssub1 & Ssub2 & Sq1 & Sq2 & S10 & S11 & S20 & S21).
+  assert (A1 : k_acc1 c' = k_acked c' + N.of_nat l1).
+  { destruct (Nat.eq_dec l1 0) as [Z|NZ]; [destruct (S10 Z) as [-> ->]; lia|destruct (S11 NZ) as [-> ->]; lia]. }
+  assert (A2 : k_recvd c' = k_compl c' + N.of_nat lr /\ k_acc2 c' = k_compl c' + N.of_nat lr + N.of_nat le).
+  { destruct (Nat.eq_dec (lr + le) 0) as [Z|NZ];
+      [destruct (S20 Z) as (-> & -> & ->); lia|destruct (S21 NZ) as (-> & -> & ->); lia]. }
+  destruct A2 as [A2 A3].
+  exists c'. split; [reflexivity|]. split; [reflexivity|]. split; [exact Hst|]. split; [exact Scfg|].
+  split. { intros Hlt. destruct (S11 ltac:(lia)) as [-> ->]. split; [reflexivity|lia]. }
+  split. { intros Heq. apply S10. lia. }
+  split; [exact Ssub1|].
+  split. { intros Hlt. destruct (S21 ltac:(lia)) as (-> & -> & ->). split; [reflexivity|]. lia. }
+  split. { intros Heq. apply S20. lia. }
+  split; [exact Ssub2|].
+  split; [lia|]. split; [lia|].
+  assert (Hsq : forall sq k v p, k <> 0 -> store_get (o_store st) k = Some v ->
+                                decode_value v = DecOk p sq -> sq <= k_rseq c').
+  { intros sq k v p Hk Hg Hd. rewrite Srseq. apply (Hb k v p sq); [|exact Hk|exact Hd].
+    apply store_get_in; assumption. }
+  split; [exact Hsq|]. split; [lia|].
+  (* the invariant of the adopted state *)
+  split; [split|split].
+  - constructor; cbn [ost_of sy_c sy_m o_max1 o_max2 o_acked o_sub1 o_acc1 o_q1 o_compl o_recvd
+                      o_sub2 o_acc2 o_q2 o_term o_closed o_rseq o_store];
+      rewrite ?Scfg; cbn [adopt_cfg s_max1 s_max2];
+      clear S10 S11 S20 S21 Hsq Hb; try lia; try (intros; lia).
+    rewrite Sterm. discriminate.
+  - cbn [ost_of sy_c sy_m o_max1 o_max2 o_acked o_sub1 o_acc1 o_q1 o_compl o_recvd
+                o_sub2 o_acc2 o_q2 o_term o_closed o_rseq o_store].
+    apply (SInv_rebase _ _ _ _ _ _ _ _ _ _ _ _ _ (oif_sto st HF)); [lia|lia| | |].
+    + destruct (Nat.eq_dec l1 0) as [Z|NZ].
+      * left. destruct (S10 Z) as [-> ->]. split; [lia|reflexivity].
+      * right. exists (o_acked st / 16384). destruct (S11 NZ) as [-> ->]. lia.
+    + destruct (Nat.eq_dec (lr + le) 0) as [Z|NZ].
+      * left. destruct (S20 Z) as (-> & -> & ->). split; [lia|]. split; reflexivity.
+      * right. exists (o_compl st / 16384). destruct (S21 NZ) as (-> & -> & ->). lia.
+    + intros k p sq Hh Hk Hsle. apply (Hsq sq k _ p Hk Hh). apply decode_encode. lia.
+  - exact Hsorted.
+  - cbn [ost_of sy_c o_rseq]. lia.
+Qed.
+
+(* The hypotheses of [adopt_exact] hold again for the adopted state (with the same
+   limits): any number of restarts. *)
+Theorem adopt_restartable : forall st cf m1 m2 tp c' r w,
+  OInv' st -> known_keys st -> markers_genuine st ->
+  Forall (fun b => b = false) (tp_stf tp) ->
+  o_acc1 st - o_acked st <= norm_max m1 -> o_acc2 st - o_compl st <= norm_max m2 ->
+  op_adopt cf m1 m2 (world_of (o_store st) tp) = Some ((Some c', r), w) ->
+  let st' := ost_of (mkSys c' (store_of_world w)) in
+  o_store st' = o_store st
+  /\ OInv' st' /\ known_keys st' /\ markers_genuine st'
+  /\ o_acc1 st' - o_acked st' = o_acc1 st - o_acked st
+  /\ o_acc2 st' - o_compl st' = o_acc2 st - o_compl st
+  /\ o_recvd st' - o_compl st' = o_recvd st - o_compl st.
+Proof.
+  intros st cf m1 m2 tp c' r w HI Hkeys Hmark Hnofail Hlim1 Hlim2 E.
+  pose proof (ci_c1 st (oif_cnt st (proj1 HI))) as C1.
+  pose proof (ci_c2 st (oif_cnt st (proj1 HI))) as C2.
+  assert (Hseq : o_rseq st < M64) by apply HI.
+  destruct (adopt_exact st cf m1 m2 tp _ r w HI Hkeys Hmark Hnofail Hlim1 Hlim2 E)
+    as (c'' & Ec & _ & Hst & _ & W1 & W1' & _ & W2 & W2' & _ & _ & _ & Hsq & _ & HI').
+  inversion Ec; subst c''. clear Ec.
+  unfold store_of_world. rewrite Hst. cbv zeta.
+  split; [reflexivity|]. split; [exact HI'|].
+  split; [exact Hkeys|]. split.
+  - intros k v Hg Hb. cbn [ost_of sy_c sy_m o_store o_rseq] in *.
+    destruct (Hmark k v Hg Hb) as (p & sq & -> & Hle). exists p, sq. split; [reflexivity|].
+    apply (Hsq sq k (encode_value p sq) p); [intros ->; discriminate|exact Hg|apply decode_encode; lia].
+  - cbn [ost_of sy_c sy_m o_acked o_acc1 o_compl o_recvd o_acc2].
+    destruct (N.eq_dec (o_acked st) (o_acc1 st)) as [E1|N1];
+      [destruct (W1' E1) as [-> ->]|destruct (W1 ltac:(lia)) as [_ ->]];
+      (destruct (N.eq_dec (o_compl st) (o_acc2 st)) as [E2|N2];
+       [destruct (W2' E2) as (-> & -> & ->)|destruct (W2 ltac:(lia)) as (_ & -> & ->)]);
+      repeat split; lia.
+Qed.
+
+(* ------------------------------------------------------------------ *)
+(* The pinned tree computed the received counter with "<" instead of "<=" (request.go,
+   "if txs.Received < txs.Completed"): with a full window of 16384 pending PUBRELs that
+   does not start at an identifier 0, received = completed: the releases were forgotten
+   while 16384 placeholders filled the queue.  Repaired in /repo (and in Session.v). *)
+Definition recvd_pinned (rel : list N) (compl : N) : N :=
+  match rel with
+  | [] => compl
+  | _ => let r := N.land (lastk rel) id_mask + 1 in if r <? compl then r + 16384 else r
+  end.
+
+Lemma adopt_recvd_pinned_refuted cm :
+  cm mod 16384 <> 0 ->
+  let rel := map key2 (nseq cm (N.to_nat 16384)) in
+  recvd_pinned rel (N.land (first_or rel 0) id_mask) = cm mod 16384   (* = completed: window lost *)
+  /\ forall c, k_recvd (c_lvl2 [] rel c) = cm mod 16384 + 16384.      (* the repaired code *)
+Proof.
+  intros Hnz. replace (N.to_nat 16384) with (S (N.to_nat 16383)) by lia.
+  pose proof (nseq_last (N.to_nat 16383) cm key2) as E. rewrite N2Nat.id in E.
+  cbv zeta. split.
+  - unfold recvd_pinned, lastk, first_or. cbn [nseq map] in E |- *. rewrite E.
+    cbv zeta. rewrite !land_mask, !key2_mod.
+    destruct (N.ltb_spec ((cm + 16383) mod 16384 + 1) (cm mod 16384)); lia.
+  - intros c. rewrite <- (N2Nat.id 16383) at 1.
+    change (map key2 (nseq cm (S (N.to_nat 16383))))
+      with (map key2 (nseq cm (S (N.to_nat 16383)))).
+    pose proof (c_lvl2_window cm (S (N.to_nat 16383)) 0 c ltac:(lia) ltac:(lia)) as W.
+    cbn [nseq map] in W |- *. rewrite W. cbn. lia.
 Qed.
